@@ -58,7 +58,11 @@ Known(mu) == IF mu[1] = "doc" THEN \E m \in DocMut : m[1] = mu[2] /\ m[2] = mu[3
 Class(ms) == IF \E mu \in ms : ClassOf(mu) = "reject" THEN "reject" ELSE "nopanic"
 (* two mutations are independent if they touch different places (the harness applies them in a fixed order:        *)
 (* tile-matrix-level first; dropElement removes the second matrix, which no position refers to)                     *)
-SamePlace(a, b) == a[1] = b[1] /\ a[2] = b[2]
+(* a mutation inside the bounding box and a mutation of the bounding box itself touch the same place: the outer one would undo the
+   inner one (boundingBox.crs -> number, then boundingBox deleted, is a valid document again) *)
+InBBox == {"boundingBox.crs", "boundingBox.lowerLeft", "boundingBox.upperRight", "boundingBox.orderedAxes"}
+Parent(f) == IF f \in InBBox THEN "boundingBox" ELSE f
+SamePlace(a, b) == a[1] = b[1] /\ (a[2] = b[2] \/ Parent(a[2]) = b[2] \/ Parent(b[2]) = a[2])
 
 (* ---- the mutation machine: documents up to Depth mutations deep ---- *)
 CONSTANT Depth
